@@ -245,7 +245,8 @@ func (w *kworld) doBatch(task string, n int, ring *gmsl.KeyRing, nfetch int) {
 	nreq := t.Range(1, 6)
 	wide := false
 	if t.Chance(15) { // worker-count boundary of DirectKeyFetcher (64)
-		nreq = sim.Pick(t, []int{63, 64, 65, 70})
+		// ... and of two pool-fuls (a queue of 64 behind 64 workers)
+		nreq = sim.Pick(t, []int{63, 64, 65, 70, 64, 65, 127, 128, 129, 140, 200})
 		wide = true
 		w.r.Probe("batch_around_64_servers")
 	}
@@ -276,7 +277,7 @@ func (w *kworld) doBatch(task string, n int, ring *gmsl.KeyRing, nfetch int) {
 	w.r.Logf("t=%v %s batch#%d: %d requests", w.r.Now(), task, n, nreq)
 	// the caller may give up while key fetches are in flight (its request was
 	// cancelled, its deadline passed): the call must still wind down cleanly
-	if w.latency && t.Chance(100) {
+	if w.latency && (t.Chance(100) || (wide && t.Chance(400))) {
 		cctx, cancel := context.WithCancel(ctx)
 		d := time.Duration(t.Range(1, 2500))*time.Millisecond + 61*time.Microsecond
 		tm := time.AfterFunc(d, func() {
